@@ -16,12 +16,15 @@ func main() {
 		vlib.Group{Name: "betweenness", Gen: genBetweenness},
 		vlib.Group{Name: "distance", Gen: genDistance},
 		vlib.Group{Name: "laplacian", Gen: genLaplacian},
+		vlib.Group{Name: "laplacian-self-edge", Gen: genLaplacianSelfEdge},
 		vlib.Group{Name: "diffuse", Gen: genDiffuse},
 		vlib.Group{Name: "q", Gen: genQ},
 		vlib.Group{Name: "qmultiplex", Gen: genQMultiplex},
 		vlib.Group{Name: "louvain", Gen: genLouvain},
 		vlib.Group{Name: "louvain-multiplex", Gen: genLouvainMultiplex},
+		vlib.Group{Name: "kclique", Gen: genKClique},
 		vlib.Group{Name: "profile", Gen: genProfile},
+		vlib.Group{Name: "profile-multiplex", Gen: genProfileMultiplex},
 		vlib.Group{Name: "expanded-chain", Gen: genExpandedNil},
 		vlib.Group{Name: "hits-edgeless", Gen: genHITSEdgeless}, // must stay last, see genHITSEdgeless
 	)
